@@ -34,6 +34,14 @@ _DEFAULT_TIMEOUT = [None]
 
 
 class SimSocket(object):
+    def __getattr__(self, name):
+        # (only called for names this stand-in does not have: the tree uses a part of the real interface that the
+        #  simulation does not model - it cannot be judged with it, which is not a verdict about the property)
+        if name.startswith('__'):
+            raise AttributeError(name)
+        from .common import HarnessError
+        raise HarnessError('simulated %s has no %r: the simulation does not fit this tree' % (type(self).__name__, name))
+
     def __init__(self, sim):
         self.sim = sim
         self.timeout = _DEFAULT_TIMEOUT[0]
@@ -126,6 +134,14 @@ class SimSocket(object):
 
 
 class _FakeSocketModule(object):
+    def __getattr__(self, name):
+        # (only called for names this stand-in does not have: the tree uses a part of the real interface that the
+        #  simulation does not model - it cannot be judged with it, which is not a verdict about the property)
+        if name.startswith('__'):
+            raise AttributeError(name)
+        from .common import HarnessError
+        raise HarnessError('simulated %s has no %r: the simulation does not fit this tree' % (type(self).__name__, name))
+
     AF_INET = 2
     SOCK_STREAM = 1
     error = OSError
@@ -146,6 +162,14 @@ class _FakeSocketModule(object):
 
 
 class _FakeSelect(object):
+    def __getattr__(self, name):
+        # (only called for names this stand-in does not have: the tree uses a part of the real interface that the
+        #  simulation does not model - it cannot be judged with it, which is not a verdict about the property)
+        if name.startswith('__'):
+            raise AttributeError(name)
+        from .common import HarnessError
+        raise HarnessError('simulated %s has no %r: the simulation does not fit this tree' % (type(self).__name__, name))
+
     error = OSError
 
     def __init__(self, sim):
@@ -163,6 +187,14 @@ class _FakeSelect(object):
 
 
 class _FakeTime(object):
+    def __getattr__(self, name):
+        # (only called for names this stand-in does not have: the tree uses a part of the real interface that the
+        #  simulation does not model - it cannot be judged with it, which is not a verdict about the property)
+        if name.startswith('__'):
+            raise AttributeError(name)
+        from .common import HarnessError
+        raise HarnessError('simulated %s has no %r: the simulation does not fit this tree' % (type(self).__name__, name))
+
     def __init__(self, sim):
         self._sim = sim
 
@@ -177,6 +209,14 @@ class _FakeTime(object):
 
 
 class _UserQueue(object):
+    def __getattr__(self, name):
+        # (only called for names this stand-in does not have: the tree uses a part of the real interface that the
+        #  simulation does not model - it cannot be judged with it, which is not a verdict about the property)
+        if name.startswith('__'):
+            raise AttributeError(name)
+        from .common import HarnessError
+        raise HarnessError('simulated %s has no %r: the simulation does not fit this tree' % (type(self).__name__, name))
+
     """Replaces from_service_user; get() is the loop's idle/scheduling point."""
 
     def __init__(self, sim):
@@ -470,6 +510,9 @@ class Sim(object):
             except Hang as h:
                 self.outcome = ('hang', str(h))
             except Exception as exc:
+                from .common import harness_fault, HarnessError
+                if harness_fault(exc):
+                    raise HarnessError('the simulation does not fit this tree: %r' % (exc,))
                 self.outcome = ('exception', exc)
             self.snapshot()
         return self
